@@ -410,6 +410,9 @@ fn eq_hash_sweep(ctx: &mut Ctx, maxlen: usize) {
 pub fn run_c20(ctx: &mut Ctx) {
     let n = nsel(ctx, 2, 3, 3, 6, 10);
     let mut dims: Vec<usize> = (0..=n).collect();
+    if ctx.scale == Scale::Native {
+        dims.extend([31, 32, 33, 64, 100]);
+    }
     dims.extend([usize::MAX, usize::MAX / 2 + 1, 1usize << 32, (1usize << 32) + 1, 1usize << 63]);
     for &c in &dims {
         for &r in &dims {
@@ -451,7 +454,11 @@ pub fn run_c20(ctx: &mut Ctx) {
         }
     }
     let nv = nsel(ctx, 2, 3, 3, 5, 7);
-    for shape in shapes(nv) {
+    let mut conv_shapes = shapes(nv);
+    if ctx.scale == Scale::Native {
+        conv_shapes.extend([(9, 7), (33, 2), (2, 33), (40, 30)]);
+    }
+    for shape in conv_shapes {
         if ctx.case(|| format!("C20 from-view parent={}x{}", shape.0, shape.1)) {
             from_view_case::<Kv>(ctx, shape);
             from_view_case::<Tok>(ctx, shape);
